@@ -389,7 +389,7 @@ func TestVerif(t *testing.T) {
 	}
 	n := r.N(quickCases, thoroughCases)
 	only := os.Getenv("VERIF_C03_ONLY") // drills only: the run is then inconclusive by min_observed
-	if only == "limits" || only == "hostile" {
+	if only == "limits" || only == "hostile" || only == "repeat" {
 		n = 0
 	}
 	for i := 0; i < n; i++ {
@@ -397,13 +397,22 @@ func TestVerif(t *testing.T) {
 	}
 	// group L: transactions refused by the limits block itself (limits_test.go)
 	nl := r.N(quickLimitCases, thoroughLimitCases)
-	if only == "hostile" {
+	if only == "hostile" || only == "repeat" {
 		nl = 0
 	}
 	// group X: DATA cut at every structural point, commands inside a chunked transfer (hostile_test.go)
 	nx := r.N(quickHostileCases, thoroughHostileCases)
-	if only == "limits" {
+	if only == "limits" || only == "repeat" {
 		nx = 0
+	}
+	// group R: the same mailbox in several RCPT commands x body-stage failure paths, greeting inside the envelope (repeat_test.go)
+	nr := r.N(quickRepeatCases, thoroughRepeatCases)
+	if only == "limits" || only == "hostile" {
+		nr = 0
+	}
+	for j := 0; j < nr; j++ {
+		i := repeatBase + j
+		r.Run(i, fmt.Sprintf("repeat-%d", j), func(c *rep.Case) { runRepeatCase(t, r, c, i) })
 	}
 	for j := 0; j < nx; j++ {
 		i := hostileBase + j
@@ -600,7 +609,7 @@ func runScenario(t *testing.T, r *rep.Reporter, c *rep.Case, i int, sc *scenario
 	r.Count("sessions_"+sc.kindTag(), 1)
 	r.Count("session_end_"+sc.End, 1)
 	countEnv(r, sc, rg, eng)
-	if i < 3 || (len(sc.Alias) > 0 && i < 12) || (sc.Hostile != nil && i-hostileBase < 2) {
+	if i < 3 || (len(sc.Alias) > 0 && i < 12) || (sc.Hostile != nil && i-hostileBase < 2) || (sc.Repeat != nil && i-repeatBase < 2) {
 		r.Sample(map[string]any{"kind": sc.kindTag(), "config": sc.Config, "faults": sc.Faults, "transcript": cl.transcript, "target_log": rg.lg.Strings(40)})
 	}
 	c.Done(shapeOf(sc, rg, eng), nontrivial(rg, mark))
